@@ -17,6 +17,8 @@ pub enum C04Case {
     Not { a: Operand, owned: bool },
     /// the same operators (and `!` on the left operand) on `Bvf<u8,320>`, outside the zoo
     Wide(super::wide::WideCase),
+    /// `v op= x` with a native integer x on a vector of more than 2^31 bits (given sparsely)
+    GiantNat { g: super::giant::GiantSpec, op: BinOp, x: Nat },
 }
 
 pub struct C04;
@@ -33,7 +35,7 @@ impl Property for C04 {
         "C04"
     }
     fn rule(&self) -> String {
-        "Cases: (LHS operand of any zoo type/length/provenance, RHS vector of any type/length/provenance or native integer, op in {&,|,^}, one of 6 operator forms) and (operand, ! owned|borrowed). Enumerated: all (n,a,m,b) with n,m<=4 (quick) / <=6 (thorough) for all 20x20 type pairings and 3 ops; all (n<=4/6,a) x integer lattice x 20 x 6 native types; every LHS length up to capacity (<=320) against an all-ones RHS of length n+1 / next word boundary / RHS capacity for all pairings; ! on all values n<=8 and every length with 3 value classes. Long vectors: the 2560-bit and 70 400-bit fixed types and Bvd/Bv at 1024..8193 bits, every length 321..2600 (thorough 8300), and a geometric ladder of lengths around every power of two from 2^14 to 2^21 (thorough 2^24) bits. Also Bvf<u8,320> (2560 bits in one-byte words, outside the zoo) as left operand against {itself,Bvd,Bv,Bvf<u32,80>} and as right operand of Bvd, lengths 2040..2560, with ! on the left operand (non-trivial there: length not a multiple of 8, both values non-zero). Random: proptest. Oracle: per-bit Boolean function on bit lists (RHS zero-extended, cut at n) + observer battery. Non-trivial: result differs from a AND (RHS longer than LHS with a set bit at index >= n, or LHS longer than RHS with a set bit above m); for !: n not a multiple of the storage word and n>0. Distinct by hash of the whole case.".into()
+        "Cases: (LHS operand of any zoo type/length/provenance, RHS vector of any type/length/provenance or native integer, op in {&,|,^}, one of 6 operator forms) and (operand, ! owned|borrowed). Enumerated: all (n,a,m,b) with n,m<=4 (quick) / <=6 (thorough) for all 20x20 type pairings and 3 ops; all (n<=4/6,a) x integer lattice x 20 x 6 native types; every LHS length up to capacity (<=320) against an all-ones RHS of length n+1 / next word boundary / RHS capacity for all pairings; ! on all values n<=8 and every length with 3 value classes. Giant vectors (2^31+69 and 2^32+77 bits, Bvd and heap Bv, sparse): v op= x with two native integers. Long vectors: the 2560-bit and 70 400-bit fixed types and Bvd/Bv at 1024..8193 bits, every length 321..2600 (thorough 8300), and a geometric ladder of lengths around every power of two from 2^14 to 2^21 (thorough 2^24) bits. Also Bvf<u8,320> (2560 bits in one-byte words, outside the zoo) as left operand against {itself,Bvd,Bv,Bvf<u32,80>} and as right operand of Bvd, lengths 2040..2560, with ! on the left operand (non-trivial there: length not a multiple of 8, both values non-zero). Random: proptest. Oracle: per-bit Boolean function on bit lists (RHS zero-extended, cut at n) + observer battery. Non-trivial: result differs from a AND (RHS longer than LHS with a set bit at index >= n, or LHS longer than RHS with a set bit above m); for !: n not a multiple of the storage word and n>0. Distinct by hash of the whole case.".into()
     }
     fn random_cases(&self, tier: Tier) -> u64 {
         tier.pick(200000, 8000000)
@@ -62,6 +64,24 @@ impl Property for C04 {
         ]
     }
     fn enumerate(&self, tier: Tier, sh: &mut Shard, f: &mut dyn FnMut(C04Case) -> bool) {
+        // beyond 2^31 and 2^32 bits: a native right operand whose bits straddle the length
+        // reduced modulo 2^32
+        for len in super::giant::GIANT_LENS {
+            for heap_bv in [false, true] {
+                if !sh.mine() {
+                    continue;
+                }
+                for ones in super::giant::giant_lists(len).into_iter().take(2) {
+                    for op in LOGIC {
+                        for x in [Nat::new(NatTy::U16, 0xffff), Nat::new(NatTy::U128, u128::MAX)] {
+                            if !f(C04Case::GiantNat { g: super::giant::GiantSpec { len, ones: ones.clone(), heap_bv }, op, x }) {
+                                return;
+                            }
+                        }
+                    }
+                }
+            }
+        }
         // more than 255 one-byte words in use: Bvf<u8,320>, outside the zoo
         if !super::wide::enumerate_wide(&LOGIC, tier == Tier::Thorough, sh, &mut |c| f(C04Case::Wide(c))) {
             return;
@@ -274,6 +294,51 @@ impl Property for C04 {
 
     fn check(&self, case: &C04Case, st: &mut Stats) -> CheckResult {
         match case {
+            C04Case::GiantNat { g, op, x } => {
+                ensure!(g.valid() && LOGIC.contains(op), "bad-case", "giant logic case outside its domain");
+                if !super::giant::giant_available(g.len) {
+                    st.class("giant vector skipped: memory not available");
+                    st.note(case, false);
+                    return Ok(());
+                }
+                // expected set bits: x occupies the low 128 bits at most
+                let xb = |i: usize| i < x.ty.bits() && (x.v >> i) & 1 == 1;
+                let expect = |i: usize| match op {
+                    BinOp::And => g.bit(i) && xb(i),
+                    BinOp::Or => g.bit(i) || xb(i),
+                    _ => g.bit(i) != xb(i),
+                };
+                // (in place on the giant itself: no clone of half a gigabyte)
+                macro_rules! go {
+                    ($T:ty) => {{
+                        let mut r: $T = g.build();
+                        nat_match!(*x, k => match op {
+                            BinOp::And => r &= k,
+                            BinOp::Or => r |= k,
+                            _ => r ^= k,
+                        });
+                        let probes: Vec<(usize, bool)> = g.ones.iter().flat_map(|&p| [p, (p + 1).min(g.len - 1)]).map(|p| (p, unbit(r.get(p)))).collect();
+                        (r.len(), read_bits(&r.copy_range(0..256)), probes, r.significant_bits())
+                    }};
+                }
+                let (len, low, probes, sig) = match catch(|| if g.heap_bv { go!(Bv) } else { go!(Bvd) }) {
+                    Ok(t) => t,
+                    Err(p) => fail!("giant-logic/panic", "a {}-bit vector with ones at {:?} {}= {}{} panicked: {}", g.len, g.ones, op.sym(), x.v, x.ty.name(), p),
+                };
+                let d = format!("a {}-bit vector with ones at {:?} {}= {:#x}{}", g.len, g.ones, op.sym(), x.v, x.ty.name());
+                ensure!(len == g.len, "giant-logic/len", "{}: length became {}", d, len);
+                let elow = Bits((0..256).map(expect).collect());
+                ensure!(low == elow, "giant-logic/low-bits", "{}: bits 0..256 are {}, expected {}", d, short(&low), short(&elow));
+                for (p, b) in probes {
+                    ensure!(b == expect(p), "giant-logic/high-bits", "{}: bit {} is {}, expected {}", d, p, b as u8, expect(p) as u8);
+                }
+                let esig = (0..256).rev().find(|&i| expect(i)).map(|i| i + 1);
+                let esig = g.ones.iter().copied().filter(|&p| expect(p)).max().map(|m| m + 1).max(esig).unwrap_or(0);
+                ensure!(sig == esig, "giant-logic/significant_bits", "{}: significant_bits() = {}, expected {}", d, sig, esig);
+                st.class("giant vector (> 2^31 bits)");
+                st.note(case, true);
+                Ok(())
+            }
             C04Case::Wide(w) => {
                 ensure!(LOGIC.contains(&w.op), "bad-case", "C04 wide case with non-logic operator");
                 super::wide::check_wide(w)?;
